@@ -73,16 +73,44 @@ def ratsOfStr (j : Json) : R (List Rat) := do
 
 def ratsStrJ (xs : List Rat) : Json := .str (" ".intercalate (xs.map ratToString))
 
-def pairsOfFlat : List Rat → R (List (Rat × Rat))
+/-- one binary64 value: a rational, or one of the tokens `-0`, `inf`, `-inf`, `nan:<sign 0/1>:<payload>` -/
+def fvOfString (s : String) : R FV :=
+  if s = "-0" then pure .negZero
+  else if s = "inf" then pure (.inf false)
+  else if s = "-inf" then pure (.inf true)
+  else if s.startsWith "nan:" then
+    match s.splitOn ":" with
+    | [_, sg, pl] => match pl.toNat? with
+      | some p => pure (.nan (sg = "1") p)
+      | none => throw s!"bad nan token {s}"
+    | _ => throw s!"bad nan token {s}"
+  else do pure (.fin (← ratOfString s))
+
+def fvToString : FV → String
+  | .fin q => ratToString q
+  | .negZero => "-0"
+  | .inf false => "inf"
+  | .inf true => "-inf"
+  | .nan sg p => s!"nan:{if sg then 1 else 0}:{p}"
+
+def fvsOfStr (j : Json) : R (List FV) := do
+  let s ← strOfJson j
+  if s.isEmpty then pure [] else (s.splitOn " ").mapM fvOfString
+
+def pairsOfFlat : List FV → R (List (FV × FV))
   | [] => pure []
   | a :: b :: t => do pure ((a, b) :: (← pairsOfFlat t))
   | _ => throw "odd number of entries for a complex buffer"
 
+def intOfFV : FV → R Int
+  | .fin q => intOfRat q
+  | _ => throw "integer expected, got a non-finite token"
+
 def darrOf (j : Json) : R DArr := do
   let shape ← nats j "shape"
-  let qs ← ratsOfStr (← fld j "v")
+  let qs ← fvsOfStr (← fld j "v")
   let buf ← match (← strOfJson (← fld j "k")) with
-    | "i" => pure (DBuf.ints (← qs.mapM intOfRat))
+    | "i" => pure (DBuf.ints (← qs.mapM intOfFV))
     | "f" => pure (DBuf.floats qs)
     | "c" => pure (DBuf.complexes (← pairsOfFlat qs))
     | s => throw s!"bad data kind {s}"
@@ -92,10 +120,10 @@ def darrOf (j : Json) : R DArr := do
 /-- values as one string: reals `a b c …`, complex `re im re im …` -/
 def darrJ (a : DArr) : Json :=
   let k := match a.buf.kind with | .int => "i" | .float => "f" | .complex => "c"
-  let flat := match a.buf.kind with
-    | .complex => a.buf.vals.flatMap fun p => [p.1, p.2]
-    | _ => a.buf.vals.map fun p => p.1
-  Json.mkObj [("k", .str k), ("shape", natsJ a.shape), ("v", ratsStrJ flat)]
+  let flat : List FV := match a.buf.kind with
+    | .complex => a.buf.vals.flatMap fun (p : FV × FV) => [p.1, p.2]
+    | _ => a.buf.vals.map fun (p : FV × FV) => p.1
+  Json.mkObj [("k", .str k), ("shape", natsJ a.shape), ("v", .str (" ".intercalate (flat.map fvToString)))]
 
 def varrOf (j : Json) : R VArr := do
   let shape ← nats j "shape"
@@ -193,8 +221,9 @@ open C10J in
 def c10 (op : String) (j : Json) : Option (R Json) :=
   match op with
   | "save" => some do
+      -- the code-shaped writer (empty dataset, then assignment at slice(None))
       let f ← tfldOf (← fld j "field")
-      pure (Json.mkObj [("ok", h5fileJ (h5Save f))])
+      pure (resJ h5fileJ (toHdf5 f))
   | "load" => some do
       let h ← h5fileOf (← fld j "file")
       pure (resJ tfldJ (h5Load h))
@@ -208,7 +237,9 @@ def c10 (op : String) (j : Json) : Option (R Json) :=
       let h ← h5fileOf (← fld j "file")
       pure (Json.mkObj [("rt_eq_load", .bool (sameRes (h5Load (h5Save f)) (h5Load h))),
         ("load_eq_loaded", .bool (sameRes (h5Load h) (.ok (loaded f)))),
-        ("store_eq", .bool (decide (h5Save f = h)))])
+        ("load_eq_reread", .bool (sameRes (h5Load h) (.ok (reread f)))),
+        ("store_eq", .bool (decide (h5Save f = h))),
+        ("writer_eq", .bool (match toHdf5 f with | .ok x => decide (x = h5Save f) | .error _ => false))])
   | "loaded" => some do
       let f ← tfldOf (← fld j "field")
       pure (Json.mkObj [("ok", tfldJ (loaded f))])
@@ -216,9 +247,25 @@ def c10 (op : String) (j : Json) : Option (R Json) :=
       let f ← tfldOf (← fld j "field")
       pure (Json.mkObj [("ok", .bool f.invB), ("mesh", .bool f.mesh.invB), ("region", .bool f.mesh.region.invB),
         ("unit_ok", .bool (decide (f.unit ≠ some "None"))),
+        ("vdims_ok", .bool (decide (f.vdims = none → f.nvdim = 1))),
+        ("int_safe", .bool f.data.buf.intSafeB),
         ("exact", .bool (f.mesh.subs.all (fun p => decide (p.2.pmin.kind = tableKind f.mesh ∧ p.2.pmax.kind = tableKind f.mesh))
           && decide (f.data.buf.kind ≠ .int)
           && decide (f.vmap = defaultVmap f.nvdim f.mesh.region.dims f.vdims)))])
+  | "series" => some do
+      -- `_h5_save_structure(f0, (T, *n, nvdim))`, a history of `_h5_save_data(dataset, t)` (a failing write leaves
+      -- the dataset as it was), then `_h5_load_field(group, k)` for every requested k
+      let f0 ← tfldOf (← fld j "field")
+      let T ← natOfJson (← fld j "T")
+      let ws ← listOf (fun e => do pure ((← intOfJson (← fld e "t")), (← darrOf (← fld e "data")))) (← fld j "writes")
+      let reads ← listOf intOfJson (← fld j "reads")
+      let h0 := saveStructure f0 (T :: (f0.mesh.n ++ [f0.nvdim]))
+      let (h, oks) := ws.foldl (fun (acc : H5Field × List Bool) w =>
+        match writeLoc acc.1.array (.idx w.1) w.2 with
+        | .ok a => ({ acc.1 with array := a }, acc.2 ++ [true])
+        | .error _ => (acc.1, acc.2 ++ [false])) (h0, [])
+      pure (Json.mkObj [("writes", boolsJ oks), ("array", darrJ h.array),
+        ("loads", listJ (fun (k : Int) => resJ tfldJ (fieldLoadAt h (.idx k))) reads)])
   | "fmt" => some do
       let s ← strOfJson (← fld j "suffix")
       pure (Json.mkObj [("write", fmtJ (writeFmt s)), ("read", fmtJ (readFmt s))])
